@@ -36,7 +36,18 @@ func c05Scenarios(thorough bool) []c05Scenario {
 	v4 := drive.EraStage(drive.StV4)
 	pre := drive.EraStage(drive.StBank) // RCD-e never active
 	pre.Name = "bank-pre-rcde"
+	// activation boundary: the entry sits in block 294 (funding prefix ends at 293). The pinned tree (and
+	// therefore mainnet consensus) accepts the key type strictly AFTER the activation height.
+	at := drive.EraStage(drive.StV4)
+	at.Name = "v4-rcde-activates-at-entry-height"
+	at.RCDe = 294
+	after := drive.EraStage(drive.StV4)
+	after.Name = "v4-rcde-activated-one-block-before"
+	after.RCDe = 293
 	out := []c05Scenario{
+		{"boundary-at/rcde/transfer", at, true, false, false},
+		{"boundary-after/rcde/transfer", after, true, false, true},
+		{"boundary-at/rcde/conversion", at, true, true, false},
 		{"pip10/rcd1/transfer", pip, false, false, true},
 		{"pip10/rcd1/conversion", pip, false, true, true},
 		{"pip10/rcde/transfer", pip, true, false, true},
